@@ -177,6 +177,10 @@ Definition read_chunk (r : bytes) : res (bytes * bytes) :=
   '(n, r1) <- read_uvarint r ;;
   (* before - r.Len() != PutUvarint(scratch, length): not minimally encoded *)
   _ <- guard (length r - length r1 =? length (put_uvarint n))%nat ;;
+  (* "length > chunkSizeLimit" on the uint64 value, then "int64(length) >
+     int64(r.Len())" (length <= 2^20 by then): unsigned comparisons, in N here;
+     every value up to 2^64-1 above the limit or the remaining bytes is an
+     error, in particular the ones >= 2^63 (Sha2pcProof.read_chunk_rejects_large) *)
   if chunkSizeLimit <? n then Err
   else if N.of_nat (length r1) <? n then Err
   else match r1 with
